@@ -11,6 +11,7 @@ import (
 
 	"github.com/99designs/gqlgen/graphql"
 	"github.com/99designs/gqlgen/graphql/errcode"
+	"github.com/99designs/gqlgen/graphql/verifhook"
 )
 
 const parserTokenNoLimit = 0
@@ -226,6 +227,7 @@ func (e *Executor) parseQuery(
 	// swap out the FieldsOnCorrectType rule with one that doesn't provide suggestions
 	if e.disableSuggestion {
 		validator.RemoveRule("FieldsOnCorrectType")
+		verifhook.At("executor.rules.between")
 
 		rule := rules.FieldsOnCorrectTypeRuleWithoutSuggestions
 		// rule may already have been added
